@@ -65,19 +65,20 @@ pub fn run_history(c: &MultiCase) -> CaseResult {
 /// or suspends the region, or drops a handle. (Bottom alignment with add/insert/remove/tick/
 /// set_message/finish only - its documented use - stays under the strict oracle.)
 pub fn signature(c: &MultiCase) -> Option<&'static str> {
+    // (1) static: bottom alignment combined with text / clear / suspend / drop (kind screen_bottom)
     let mut bottom_seen = false;
+    let mut bottom = false;
     for o in &c.ops {
         match o {
             MOp::SetAlignment(true) => bottom_seen = true,
-            MOp::Drop(_) | MOp::MpClear | MOp::MpSuspend(_) | MOp::BarSuspend(..) | MOp::MpPrintln(_) | MOp::BarPrintln(..) if bottom_seen => {
-                return Some("bottom_alignment_shift_rows");
-            }
+            MOp::Drop(_) | MOp::MpClear | MOp::MpSuspend(_) | MOp::BarSuspend(..) | MOp::MpPrintln(_) | MOp::BarPrintln(..) if bottom_seen => bottom = true,
             _ => {}
         }
     }
-    // Known finding F-C02b (found by re-running the history): remove() does not repaint; when a
-    // visibly finished bar at the head of the list is dropped before the next repaint, the row kept
-    // on screen is the removed bar's stale row instead of the finished bar's.
+    // (2) found by re-running the history:
+    //  F-C02b: remove() does not repaint; when a visibly finished bar at the head of the list is dropped
+    //          before the next repaint, the row kept on screen is the removed bar's stale row;
+    //  F-C01b seen through a MultiProgress: empty first suspend line while no bar row is on screen.
     let _clk = clock::Armed::new();
     let mut it = Interp::new(c);
     for op in &c.ops {
@@ -85,15 +86,19 @@ pub fn signature(c: &MultiCase) -> Option<&'static str> {
         if !matches!(catch(|| it.step(op)), Ok(Ok(_))) {
             break;
         }
-        if it.stale_reap_seen {
-            return Some("remove_then_retain_before_repaint");
-        }
-        if it.empty_suspend_line_seen {
-            // the C01 finding F-C01b seen through a MultiProgress
-            return Some("ordinary_empty_line_after_text_only_draw");
-        }
     }
-    None
+    let (stale, empty) = (it.stale_reap_seen, it.empty_suspend_line_seen);
+    drop(it);
+    Some(match (bottom, stale, empty) {
+        (false, false, false) => return None,
+        (true, false, false) => "bottom_alignment_shift_rows",
+        (false, true, false) => "remove_then_retain_before_repaint",
+        (false, false, true) => "ordinary_empty_line_after_text_only_draw",
+        (true, true, false) => "bottom_alignment_shift_rows|remove_then_retain_before_repaint",
+        (true, false, true) => "bottom_alignment_shift_rows|ordinary_empty_line_after_text_only_draw",
+        (false, true, true) => "remove_then_retain_before_repaint|ordinary_empty_line_after_text_only_draw",
+        (true, true, true) => "bottom_alignment_shift_rows|remove_then_retain_before_repaint|ordinary_empty_line_after_text_only_draw",
+    })
 }
 
 pub fn history_strategy(tier: Tier) -> BoxedStrategy<MultiCase> {
@@ -231,7 +236,7 @@ pub fn property() -> Property {
                 name: "history",
                 rule: "one MultiProgress on an 80-row x 16..40-column VTerm, 0-30 (thorough 50) ops from add/insert/insert_from_back/insert_before/insert_after/remove/tick/inc/set_message/finish*/abandon/drop/mp.println/bar.println/mp.clear/mp.suspend/bar.suspend/set_alignment over up to 8 one- or two-line bars with unique tags and random finish behaviours; lock-step list model; at every flush the screen must be log ++ (retained blocks) ++ each drawn member's cached rendering exactly once in model order; non-trivial = >=2 bars alive and an insert-not-at-end/remove/drop",
                 strategy: history_strategy,
-                cases: |t| t.pick(3_000, 120_000),
+                cases: |t| t.pick(3_000, 480_000),
                 run: run_history,
                 signature,
                 essential: &["two_bars_alive", "insert", "insert_from_back", "insert_before", "insert_after", "slot_reuse_after_removal", "head_zombie_reaped", "non_head_zombie", "bar_println", "static_block", "bottom_alignment_shrink"],
@@ -246,7 +251,7 @@ pub fn property() -> Property {
                         .prop_map(|(threads, updates, hz, yield_every)| ThreadsCase { threads, updates, hz, yield_every })
                         .boxed()
                 },
-                cases: |t| t.pick(40, 1500),
+                cases: |t| t.pick(40, 6_000),
                 run: run_threads,
                 signature: no_signature,
                 essential: &["several_frames", "rate_limited"],
